@@ -9,6 +9,7 @@
     than the window), [Panic _] (the code would panic), [Fuel] (the loop would not stop);
     [Tile fs fe s e ws]: the ranges [fs w, fe w) are non-empty, consecutive, start at [s], end at [e]. *)
 From TU Require Import Base C16_Model C16_Proofs C16_Top.
+From TU Require Import UAX29_Model C16_UAX29.
 Open Scope N_scope.
 
 (** run_length_decode (run_length_encode l) = l *)
@@ -174,3 +175,107 @@ Example config_witness : windows 1 6 3 [1;2;3;4;1;1;2] = Err 1 [].
 Proof. vm_compute. reflexivity. Qed.
 Example wf_witness : wf_C16 (L [I 1; I 7; I 1; L [L [I 97]; L [I 228]; L [I 101; I 769]]; I 1; L []])%Z = true.
 Proof. vm_compute. reflexivity. Qed.
+
+(** ** Grapheme mode with the segmenter inside the model (UAX29_Model.segment, tied to the crate
+    unicode-segmentation by the correspondence [uax29_agree]).  [lens_u s] = UTF-8 byte lengths of
+    the clusters of [segment s]; [utf8s s] = the UTF-8 bytes of [s] (Base.v).  No premise on the
+    segmentation is left: the text is any list of code points. *)
+
+(** the (num_bytes, count) runs computed from [segment s] account for exactly the UTF-8 bytes of [s];
+    [str.len()] / [len()] are the UTF-8 length / the number of clusters; character [n] occupies the
+    bytes between the UTF-8 lengths of the first [n] and the first [n+1] clusters *)
+Theorem offsets_u : forall s,
+  sumN (map (fun p => fst p * snd p) (c_rle (cs_new (lens_u s)))) = lenN (utf8s s)
+  /\ unrle (c_rle (cs_new (lens_u s))) = map (fun c => lenN (utf8s c)) (segment s)
+  /\ c_blen (cs_new (lens_u s)) = lenN (utf8s s)
+  /\ c_len (cs_new (lens_u s)) = lenN (segment s)
+  /\ (forall n, n < lenN (segment s) ->
+        bse (cs_new (lens_u s)) n =
+        Ok (lenN (utf8s (concat (firstn (N.to_nat n) (segment s)))),
+            lenN (utf8s (concat (firstn (N.to_nat (n + 1)) (segment s)))))).
+Proof. exact offsets_u_l. Qed.
+Print Assumptions offsets_u.
+
+(** the windows tile the clusters of [segment s] and the UTF-8 bytes of [s]; the byte slices of the
+    UTF-8 text concatenate to it, the cluster slices concatenate to the text *)
+Theorem windows_tile_u : forall kind max ctx s wins, s <> [] ->
+  windows kind max ctx (lens_u s) = Ok wins ->
+  Tile w_ws w_we 0 (lenN (segment s)) wins
+  /\ Tile w_bws w_bwe 0 (lenN (utf8s s)) wins
+  /\ concat (map (fun w => bslice (utf8s s) (w_bws w) (w_bwe w)) wins) = utf8s s
+  /\ concat (map (fun w => concat (bslice (segment s) (w_ws w) (w_we w))) wins) = s.
+Proof. exact (windows_tile_g true). Qed.
+Print Assumptions windows_tile_u.
+
+(** the same in both modes: [seg_of g s] = [segment s] or one cluster per code point *)
+Theorem windows_tile_g : forall g kind max ctx s wins, s <> [] ->
+  windows kind max ctx (lens_g g s) = Ok wins ->
+  Tile w_ws w_we 0 (lenN (seg_of g s)) wins
+  /\ Tile w_bws w_bwe 0 (lenN (utf8s s)) wins
+  /\ concat (map (fun w => bslice (utf8s s) (w_bws w) (w_bwe w)) wins) = utf8s s
+  /\ concat (map (fun w => concat (bslice (seg_of g s) (w_ws w) (w_we w))) wins) = s.
+Proof. exact C16_UAX29.windows_tile_g. Qed.
+Print Assumptions windows_tile_g.
+
+Theorem ctx_contains_u : forall kind max ctx s wins, s <> [] ->
+  windows kind max ctx (lens_u s) = Ok wins ->
+  Forall (fun w => w_cs w <= w_ws w /\ w_we w <= w_ce w /\ w_ce w <= lenN (segment s)
+                /\ w_bcs w <= w_bws w /\ w_bwe w <= w_bce w /\ w_bce w <= lenN (utf8s s)) wins.
+Proof. exact (ctx_contains_g true). Qed.
+Print Assumptions ctx_contains_u.
+
+Theorem ctx_bound_u : forall kind max ctx s wins, s <> [] ->
+  windows kind max ctx (lens_u s) = Ok wins ->
+  (kclass kind = 0 -> Forall (fun w => w_ce w - w_cs w <= max) wins)
+  /\ (kclass kind = 1 -> Forall (fun w => w_bce w - w_bcs w <= max) wins).
+Proof. exact (ctx_bound_g true). Qed.
+Print Assumptions ctx_bound_u.
+
+(** byte boundary = UTF-8 length of the clusters before the character boundary
+    ([blen_to seg n] = [lenN (utf8s (concat (firstn n seg)))]); the string is the context range *)
+Theorem byte_char_agree_u : forall kind max ctx s wins, s <> [] ->
+  windows kind max ctx (lens_u s) = Ok wins ->
+  Forall (fun w => w_bcs w = blen_to (segment s) (w_cs w) /\ w_bws w = blen_to (segment s) (w_ws w)
+                /\ w_bwe w = blen_to (segment s) (w_we w) /\ w_bce w = blen_to (segment s) (w_ce w)
+                /\ w_soff w = w_bcs w /\ w_soff w + w_slen w = w_bce w) wins.
+Proof. exact (byte_char_agree_g true). Qed.
+Print Assumptions byte_char_agree_u.
+
+Theorem windows_total_u : forall kind max ctx s,
+  (exists wins, windows kind max ctx (lens_u s) = Ok wins)
+  \/ (exists c info, windows kind max ctx (lens_u s) = Err c info).
+Proof. exact (windows_total_g true). Qed.
+Print Assumptions windows_total_u.
+
+Theorem bad_config_err_u : forall kind max ctx s, s <> [] ->
+  kclass kind <> 2 -> max <= 2 * ctx -> windows kind max ctx (lens_u s) = Err 1 [].
+Proof. exact (bad_config_err_g true). Qed.
+Print Assumptions bad_config_err_u.
+
+Theorem windows_fit_ok_u : forall kind max ctx s, s <> [] ->
+  (kclass kind <> 2 -> 2 * ctx < max) ->
+  (kclass kind = 1 -> Forall (fun c => lenN (utf8s c) <= max - 2 * ctx) (segment s)) ->
+  exists wins, windows kind max ctx (lens_u s) = Ok wins.
+Proof. exact (windows_fit_ok_g true). Qed.
+Print Assumptions windows_fit_ok_u.
+
+(** the harness input built entirely by the model (either mode) passes the executable statement and
+    the segmenter correspondence; and an input accepted by [uax29_agree] carries the model's own
+    segmentation of the text it spells *)
+Theorem check_run_u : forall kind max ctx g s probes,
+  check_C16 (input_of kind max ctx g s probes) (run_C16 (input_of kind max ctx g s probes)) = true
+  /\ uax29_agree (input_of kind max ctx g s probes) = true.
+Proof. exact check_run_u_l. Qed.
+Print Assumptions check_run_u.
+
+Theorem uax29_agree_sound : forall v, uax29_agree v = true ->
+  v_clusters (v_nth 3 v) = seg_of (v_bool (v_nth 4 v)) (concat (v_clusters (v_nth 3 v))).
+Proof. exact uax29_agree_sound_l. Qed.
+Print Assumptions uax29_agree_sound.
+
+(** "e + U+0301, woman ZWJ laptop, CR LF, a": 4 clusters of 3, 11, 2, 1 bytes; byte windows max 12 ctx 0 *)
+Example lens_u_witness : lens_u [101; 769; 128105; 8205; 128187; 13; 10; 97] = [3; 11; 2; 1].
+Proof. vm_compute. reflexivity. Qed.
+Example windows_u_witness : exists wins,
+  windows 1 12 0 (lens_u [101; 769; 128105; 8205; 128187; 13; 10; 97]) = Ok wins /\ length wins = 3%nat.
+Proof. eexists. split; [vm_compute; reflexivity | reflexivity]. Qed.
